@@ -49,6 +49,10 @@ fn dispatch_run(prop: &str, tier: Tier, shard: Shard, rep: &mut Report) {
         "C07" => props::c07::run(tier, shard, rep),
         "C08" => props::c08::run(tier, shard, rep),
         "C12" => props::c12::run(tier, shard, rep),
+        "C13" => props::c13::run(tier, shard, rep),
+        "C14" => props::c14::run(tier, shard, rep),
+        "C15" => props::c15::run(tier, shard, rep),
+        "C19" => props::c19::run(tier, shard, rep),
         "C16" => props::c16::run(tier, shard, rep),
         "C17" => props::c17::run(tier, shard, rep),
         _ => {
@@ -63,6 +67,10 @@ fn dispatch_replay(prop: &str, case: &serde_json::Value, rep: &mut Report) {
         "C07" => props::c07::replay(case, rep),
         "C08" => props::c08::replay(case, rep),
         "C12" => props::c12::replay(case, rep),
+        "C13" => props::c13::replay(case, rep),
+        "C14" => props::c14::replay(case, rep),
+        "C15" => props::c15::replay(case, rep),
+        "C19" => props::c19::replay(case, rep),
         "C16" => props::c16::replay(case, rep),
         "C17" => props::c17::replay(case, rep),
         _ => {
